@@ -240,6 +240,8 @@ class OMPLoopTrans(ParallelLoopTrans):
         '''
         if not options:
             options = {}
+        # Validate before anything is added to the symbol table
+        self.validate(node, options=options)
         self._reprod = options.get("reprod",
                                    Config.get().reproducible_reductions)
 
